@@ -265,12 +265,16 @@ def check_invalid(case):
                    f'{case["fault"]}:{type(res).__name__}')
 
 
-def case_strategy(n_hist):
-    base = st.one_of(gen_cfg.model_and_spec(want_mc=True),
+def strata():
+    return [gen_cfg.model_and_spec(want_mc=True),
                      gen_cfg.model_and_spec(want_mc=True, force=['out_many_formals', 'inout_mix']),
                      gen_cfg.model_and_spec(want_mc=True, force=['outer_enum', 'partial_spelling']),
-                     gen_cfg.model_and_spec(want_mc=True, force=['many_ports', 'global_enc']))
-    return st.tuples(base.filter(lambda c: c['spec'].get('mc')),
+                     gen_cfg.model_and_spec(want_mc=True, force=['many_ports', 'global_enc']),
+                     gen_cfg.model_and_spec(want_mc=True, force=['many_provides', 'prefix_ports'])]
+
+
+def with_histories(n_hist):
+    return lambda base: st.tuples(base.filter(lambda c: c['spec'].get('mc')),
                      st.lists(history, min_size=n_hist, max_size=n_hist)).map(
         lambda t: {**t[0], 'histories': t[1]})
 
@@ -284,10 +288,11 @@ def run(ctx):
         elif ctx.replay.get('clause') == 'invalid_settings':
             ctx._run_one('invalid_settings', check_invalid, ctx.replay['case'])  # pylint: disable=protected-access
         return
-    from vf.draw import draw_cases
+    from vf.draw import draw_stratified
     from vf.runner import case_hash, load_regress
     n_models, n_hist = (8, 40) if ctx.quick else (80, 300)
-    cases = load_regress(ctx.prop, name) + draw_cases(case_strategy(n_hist), n_models, ctx.seed)
+    cases = load_regress(ctx.prop, name) + draw_stratified(strata(), n_models, ctx.seed,
+                                                           wrap=with_histories(n_hist))
     done = {}
 
     def check(case, workdir):
